@@ -104,7 +104,9 @@ func firstDiff(a, b []string) string {
 
 // C17: metamorphic relation between the flag-free run and the run under F.
 func flagCase(t *testing.T, sc Script, mask int, unknown bool, wire bool) (viol string, nt bool, labels map[string]int, foreign bool) {
-	ex := RunH(t, sc, CaseOpts{Ex: exclusionsFromFindings(), Wire: wire})
+	exl := exclusionsFromFindings()
+	exl.SerialiseCompConflicts = true
+	ex := RunH(t, sc, CaseOpts{Ex: exl, Wire: wire})
 	labels = ex.Labels
 	if len(ex.Viol) > 0 {
 		return "", false, labels, true // the flag-free run itself is not in order: other checks decide that
@@ -335,7 +337,9 @@ func maskSessions(lines []string) []string {
 }
 
 func isoCase(t *testing.T, sc Script) (viol string, nt bool, labels map[string]int, foreign bool) {
-	ex := RunH(t, sc, CaseOpts{Ex: exclusionsFromFindings()})
+	exl := exclusionsFromFindings()
+	exl.SerialiseCompConflicts = true
+	ex := RunH(t, sc, CaseOpts{Ex: exl})
 	labels = ex.Labels
 	mine, other := violationsFor(ex, "C03")
 	if len(mine) > 0 {
